@@ -31,3 +31,16 @@ Proof.
   apply (script_config_equiv script_table parse_conf read_file st main text ("cv_config", 1, 1)); [|reflexivity|reflexivity|reflexivity].
   exact (proj1 (proj2 (proj2 (proj2 script_table_wf)))).
 Qed.
+
+Lemma script_table_every_argument_count e cvs bs name n : In e script_table -> is_pseudo e = false ->
+  exists k sub, entry_class e = Some (k, sub) /\
+    ((k = OColvar -> In name cvs) -> (k = OBias -> In name bs) ->
+     dispatch script_table cvs bs (witness_n k sub name n) =
+       if (Z.of_nat n <? e_min e) then ErrTooFewArgs e else if (e_max e <? Z.of_nat n) then ErrTooManyArgs e else Run k e true).
+Proof.
+  intros Hin Hps.
+  assert (Hwf : table_wf script_table = true) by apply script_table_wf.
+  assert (He := table_wf_entry _ _ Hwf Hin). unfold entry_wf in He. apply andb_true_iff in He as [_ He].
+  destruct (entry_class e) as [[k sub]|] eqn:E; [|discriminate].
+  exists k, sub. split; [reflexivity|]. intros Hc Hb. apply dispatch_total_per_argument_count; assumption.
+Qed.
